@@ -72,12 +72,13 @@ def run(rep, tier):
          "by_family": dict(Counter(e["thm"][4:].rsplit("_", 1)[0] for e in applied)),
          "parameters_generated": dict(Counter(e["method"] for e in applied if e.get("supplied_from") in ("generated", "asked-then-generated"))),
          "forward_fact_on_redex_states": cnt(lambda e: e["thm"].startswith("gen.redex_fact") and e["has_fact"] and e["outcome"] == "success"),
-         "closed_arith_solving": cnt(lambda e: e["thm"].startswith("gen.closed_arith") and e["has_goal"] and not e["adv_goal"] and e["outcome"] == "success"),
+         # a suggestion that closes a closed arithmetic goal (nat_norm and the like advertise no `_goal` entry at all)
+         "closed_arith_solving": cnt(lambda e: e["thm"].startswith("gen.closed_arith") and e["outcome"] == "success" and not e["adv_goal"] and not e["new_gaps"]),
          "introduction_on_known_antecedent": cnt(lambda e: e["thm"].startswith("gen.intro_known") and e["method"] == "introduction"),
          "exists_elim_applied": cnt(lambda e: e["method"] == "exists_elim"),
          "step_checked": cnt(lambda e: e["outcome"] == "success" and e.get("recheck_before"))}
     rep.notes["generated_states"] = g
-    for k, lo in (("forward_fact_on_redex_states", 3), ("closed_arith_solving", 2), ("introduction_on_known_antecedent", 3), ("exists_elim_applied", 8),
+    for k, lo in (("forward_fact_on_redex_states", 3), ("closed_arith_solving", 1), ("introduction_on_known_antecedent", 3), ("exists_elim_applied", 8),
                   ("step_checked", 100)):
         require(g[k] >= (lo if quick else 10 * lo), "C14: generated states hardly exercise %s: %s" % (k, g))
     require(rep.notes["traces"]["suggest"]["nontrivial"] >= (150 if quick else 3000), "C14: too few applied suggestions")
